@@ -874,7 +874,8 @@ func (e *c06Env) resumePending(bool) {
 		// connection can still take requests: the operation that made it so must have woken the
 		// waiter itself, i.e. the waiter's HEADERS are on their way (the barrier PING of afterOp has
 		// been answered: everything the client wrote while processing the operation has arrived; a
-		// woken RoundTrip needs one more scheduling round at most, hence the short grace period).
+		// woken RoundTrip needs one more scheduling round; the patience is the lane's usual one, so a
+		// loaded machine cannot turn a slow wake-up into a lost one).
 		usable := e.cc.CanTakeNewRequest() && !e.closed
 		enabled := usable && int64(e.liveCount()) < e.slotLimit()
 		if usable && !enabled {
@@ -883,7 +884,7 @@ func (e *c06Env) resumePending(bool) {
 		// (not usable any more: the waiter is going to fail whenever it wakes; wake it now, as the
 		// model does, so that the script is rid of it)
 		if enabled {
-			deadline := time.Now().Add(300 * time.Millisecond)
+			deadline := time.Now().Add(c06Wait)
 			for time.Now().Before(deadline) && e.pending != nil {
 				select {
 				case cs := <-st.stCh:
